@@ -29,7 +29,10 @@ def py_outcome(o, rng):
         return (1.0, 2.0, 3.0)
     def val(v, bad):
         if v is not None:
-            return rng.choice([float(v), np.float64(v), np.array([v]), np.array(v)])
+            ch = [float(v), np.float64(v), np.array([v]), np.array(v), np.float32(v)]        # (all generated values are exact in float32)
+            if float(v).is_integer() and 0 <= v < 200:
+                ch += [np.uint8(v), np.int32(v), np.uint64(v), int(v)]                       # integer-typed spellings of integral values / SDs
+            return rng.choice(ch)
         return bad
     if k == "scalar":
         return val(o["y"], rng.choice([float("nan"), float("inf"), float("-inf"), complex(1, 1), np.array([1.0, 2.0]), None]))
